@@ -105,6 +105,7 @@ type ServerSide struct {
 	SecurityCalls        int    `json:"security_calls"`
 	// the user's own NotFound / MethodNotAllowed handlers (installed in half of the typed scenarios) were called
 	SecurityRefused bool   `json:"security_refused,omitempty"` // the application's security handler refused (or could not check) the credential
+	LabelsForeign   string `json:"labels_foreign,omitempty"`   // what the Labeler held after this request added its own label, if that is not its own label alone
 	NewErrorStatus  int    `json:"new_error_status,omitempty"` // the status the application's NewError chose for this request's failure
 	CustomNotFound  int    `json:"custom_not_found,omitempty"`
 	CustomNotAllow  int    `json:"custom_method_not_allowed,omitempty"`
